@@ -46,20 +46,18 @@ theorem add_in_range (t : Nat) (d : Int) (ht : t < TMAX)
     timeAddDur t d = some ((t : Int) + d).toNat := by
   unfold TMAX at ht
   unfold DMAX at hd
-  unfold timeAddDur
-  dsimp only
-  rw [if_pos]
+  rw [timeAddDur_nonneg t d hpos, if_pos]
   rw [inU128_iff]
   omega
 
-/-- **Add then subtract cancels**, wherever the addition itself is defined
+/-- **Add then subtract cancels**, wherever the addition is defined and does not saturate at zero
 (any time — a `U96F32` bit pattern, hence `< 2^128` —, any duration except the
 single non-negatable value `MIN`). -/
 theorem add_sub_cancel (t t' : Nat) (d : Int) (ht : t < U128) (hd : -(I127 : Int) < d ∧ d < I127)
-    (h : timeAddDur t d = some t') : timeSubDur t' d = some t := by
+    (hpos : 0 ≤ (t : Int) + d) (h : timeAddDur t d = some t') : timeSubDur t' d = some t := by
   unfold I127 at hd
   unfold U128 at ht
-  unfold timeAddDur at h
+  rw [timeAddDur_nonneg t d hpos] at h
   obtain ⟨hr, ht'⟩ := ite_some_eq h
   rw [inU128_iff] at hr
   subst ht'
@@ -67,29 +65,25 @@ theorem add_sub_cancel (t t' : Nat) (d : Int) (ht : t < U128) (hd : -(I127 : Int
   unfold timeSubDur durNeg
   rw [ite_some_of_true hn]
   dsimp only
-  unfold timeAddDur
-  dsimp only
   have e : ((((t : Int) + d).toNat : Nat) : Int) + -d = t := by omega
-  rw [e, if_pos (by rw [inU128_iff]; omega)]
+  rw [timeAddDur_nonneg _ _ (by omega), e, if_pos (by rw [inU128_iff]; omega)]
   simp
 
 /-- subtract then add cancels as well -/
 theorem sub_add_cancel (t t' : Nat) (d : Int) (ht : t < U128) (hd : -(I127 : Int) < d ∧ d < I127)
-    (h : timeSubDur t d = some t') : timeAddDur t' d = some t := by
+    (hpos : 0 ≤ (t : Int) - d) (h : timeSubDur t d = some t') : timeAddDur t' d = some t := by
   unfold I127 at hd
   unfold U128 at ht
   have hn : inI128 (-d) = true := by rw [inI128_iff]; omega
   unfold timeSubDur durNeg at h
   rw [ite_some_of_true hn] at h
   dsimp only at h
-  unfold timeAddDur at h
+  rw [timeAddDur_nonneg t (-d) (by omega)] at h
   obtain ⟨hr, ht'⟩ := ite_some_eq h
   rw [inU128_iff] at hr
   subst ht'
-  unfold timeAddDur
-  dsimp only
   have e : ((((t : Int) + -d).toNat : Nat) : Int) + d = t := by omega
-  rw [e, if_pos (by rw [inU128_iff]; omega)]
+  rw [timeAddDur_nonneg _ _ (by omega), e, if_pos (by rw [inU128_iff]; omega)]
   simp
 
 /-- **Difference of two times is exact** for all times below 2^127 units
@@ -108,10 +102,8 @@ theorem time_sub_exact (a b : Nat) (ha : a < I127) (hb : b < I127) :
     unfold durAdd
     rw [ite_some_of_true hs]
     congr 1
-  · unfold timeAddDur
-    dsimp only
-    have e : (b : Int) + ((a : Int) - b) = a := by omega
-    rw [e, if_pos (by rw [inU128_iff]; omega)]
+  · have e : (b : Int) + ((a : Int) - b) = a := by omega
+    rw [timeAddDur_nonneg _ _ (by omega), e, if_pos (by rw [inU128_iff]; omega)]
     simp
 
 theorem time_sub_in_ptp_range (a b : Nat) (ha : a < TMAX) (hb : b < TMAX) :
@@ -208,5 +200,10 @@ example : timeToWire (1700000000 * SEC + 123456789 * F32 + 0xabcd1234) =
 example : timeSubnano (1700000000 * SEC + 123456789 * F32 + 0xabcd1234) = 0xabcd := by decide +kernel
 example : timeAddDur (5 * SEC) (-(3 * SEC : Nat) - 7) = some (2 * SEC - 7) := by decide +kernel
 example : durToTiv (-1) = -1 ∧ tivToDur (-1) = -65536 := by decide +kernel
+
+/-- **Time never goes negative**: subtracting more than there is stops at zero (since the `fix:` commit; before it
+the unsigned subtraction overflowed) -/
+theorem add_saturates_at_zero (t : Nat) (d : Int) (h : (t : Int) + d < 0) : timeAddDur t d = some 0 :=
+  timeAddDur_neg t d h
 
 end Statime.C16
